@@ -99,7 +99,7 @@ BASE = [
     {'dim': 3, 'expr': 'stiffness_vf', 'predefined': 'stiffness_vf'},
     # both orientations of non-commutative operations on the same operands (CSE must not merge them)
     {'dim': 2, 'expr': '((f*f*f - g*g*g)*f + (g*g*g - f*f*f)*g + 5.0)*u*v*dx', 'inputs': [['f', [], False, False], ['g', [], False, False]]},
-    {'dim': 2, 'expr': '((f*f+1.0)/(g*g+2.0)*u + (g*g+2.0)/(f*f+1.0)*v)*u*v*dx', 'inputs': [['f', [], False, False], ['g', [], True, False]]},
+    {'dim': 2, 'expr': '((f*f+1.0)/(g*g+2.0) + (g*g+2.0)/(f*f+1.0))*u*v*dx', 'inputs': [['f', [], False, False], ['g', [], True, False]]},
 ]
 
 
@@ -158,3 +158,26 @@ def neighbours(spec):
     if spec['components'] == [2, 2] and 'div' in spec['expr']:
         pass
     return out
+
+
+def is_multilinear(spec, vform=None):
+    """a well-formed variational form is linear in every basis function it declares (the assemblers rely on it: pairs without common
+    support are skipped): checked on the denotation -- vanishing when a basis function is replaced by 0 and homogeneous of degree 1"""
+    import sympy as sp
+    from pyvc.exprsem import Sem
+    if vform is None:
+        from pyiga import vform
+    V = build(spec, vform=vform)
+    S = Sem(V, vform)
+    t = sp.Symbol('t_scale')
+    for e in V.exprs:
+        d = S.den(e)
+        comps = list(d) if isinstance(d, sp.MatrixBase) else [d]
+        for bf in V.basis_funs:
+            f = sp.Function('bf_' + bf.name)(*S.xi)
+            for c in comps:
+                if sp.simplify(c.subs(f, 0).doit()) != 0:
+                    return False
+                if sp.simplify((c.subs(f, t * f).doit() - t * c)) != 0:
+                    return False
+    return True
